@@ -141,10 +141,21 @@ func parseArgsWithExpiration(args map[string]any, defaultHandler func(name strin
 	for name, arg := range args {
 		switch name {
 		case "expiration.seconds", "seconds":
-			expiration = now.Add(time.Second*time.Duration(arg.(int64)) - time.Nanosecond)
+			var ok bool
+			if expiration, ok = deadlineAfter(now, arg.(int64), time.Second); !ok {
+				return
+			}
+			expiration = expiration.Add(-time.Nanosecond)
 		case "expiration.milliseconds", "milliseconds":
-			expiration = now.Add(time.Millisecond*time.Duration(arg.(int64)) - time.Nanosecond)
+			var ok bool
+			if expiration, ok = deadlineAfter(now, arg.(int64), time.Millisecond); !ok {
+				return
+			}
+			expiration = expiration.Add(-time.Nanosecond)
 		case "expiration.unix-time-seconds":
+			if arg.(int64) > math.MaxInt64/1000 {
+				return
+			}
 			expiration = time.Unix(arg.(int64), 0).Add(time.Duration(now.Nanosecond()) - time.Nanosecond)
 		case "expiration.unix-time-milliseconds":
 			n := arg.(int64)
